@@ -441,8 +441,11 @@ def contiguous(d, f):
     return not f["list"] and not f["array"]
 
 
-def gen_random(tier, seed, mode, tag, num_q, num_t, maxfields=6):
-    _, decls = vlib.declgen(mode, q(tier, num_q, num_t), 60, seed, {"GEN_MAXFIELDS": maxfields}, tag)
+def gen_random(tier, seed, mode, tag, num_q, num_t, maxfields=6, custom=False):
+    consts = {"GEN_MAXFIELDS": maxfields}
+    if custom:
+        consts["GEN_CUSTOM"] = 1      # rich mode: enum / Option<enum> / nested-bitfield typed fields, non-zero defaults
+    _, decls = vlib.declgen(mode, q(tier, num_q, num_t), 60, seed, consts, tag + ("-rich" if custom else ""))
     return decls
 
 
@@ -590,7 +593,8 @@ def c06(pid, tier, seed, t0):
 def c08(pid, tier, seed, t0):
     mc = [mc_register("C08", "SmallDecls", ["a", "b"], ["TypeOK", "Frame", "ReadBack"], [])]
     _, cust = vlib.corpus("cust")
-    decls = copyd(cust)
+    rnd = sub(gen_random(tier, seed, "overlap", "c08", 150, 1500, custom=True), lambda d, f: f["kind"] in ("enum", "optenum", "nested"))
+    decls = copyd(cust) + copyd(rnd)
     declfile = save_decls("C08", decls)
     legs = [trace_leg(pid, tier, seed, "cust", decls, declfile, "get,write", q(tier, 1, 4), crate="rt-c08")]
     sym(pid, decls)
@@ -610,7 +614,7 @@ def c11(pid, tier, seed, t0):
     _, nc = vlib.corpus("nc")
     _, cust = vlib.corpus("cust")
     _, model = vlib.corpus("model")
-    rnd = gen_random(tier, seed, "overlap", "c11", 300, 3000)
+    rnd = gen_random(tier, seed, "overlap", "c11", 300, 3000, custom=True)
     decls = [d for d in copyd(star) + copyd(arr) + copyd(nc) + copyd(cust) + copyd(model) + copyd(rnd) if arb(d)]
     if tier == "thorough":
         decls += [d for d in tall_chunks() if arb(d)]
@@ -659,7 +663,7 @@ def c12(pid, tier, seed, t0):
         mc.append(mc_register("C12n", "NineDecls", ["a"], ["TypeOK", "LastWriteWins", "DisjointCommute", "UpperBitsZero"], [], idle_ok=("Default",)))
     _, model = vlib.corpus("model")
     _, nc = vlib.corpus("nc")
-    rnd = gen_random(tier, seed, "overlap", "c12", 150, 1500, maxfields=8)
+    rnd = gen_random(tier, seed, "overlap", "c12", 150, 1500, maxfields=8, custom=True)
     decls = copyd(model) + copyd(nc) + copyd(rnd)
     declfile = save_decls("C12", decls)
     legs = [trace_leg(pid, tier, seed, "model+nc+rand(overlapping)", decls, declfile, "history", q(tier, 3, 12), crate="rt-c12")]
@@ -675,7 +679,7 @@ def c12(pid, tier, seed, t0):
 def c13(pid, tier, seed, t0):
     mc = [mc_builder("C13")]
     _, bld = vlib.corpus("bld")
-    rnd = [d for d in gen_random(tier, seed, "valid", "c13", 150, 1500) if builder_sound_py(d)]
+    rnd = [d for d in gen_random(tier, seed, "valid", "c13", 150, 1500, custom=True) if builder_sound_py(d)]
     decls = copyd(bld) + copyd(rnd)
     declfile = save_decls("C13", decls)
     legs = [trace_leg(pid, tier, seed, "bld+rand(valid, builder offered)", decls, declfile, "build", q(tier, 2, 40), builder=True, crate="rt-c13")]
@@ -718,7 +722,7 @@ def c16(pid, tier, seed, t0):
     _, arr = vlib.corpus("arr")
     _, nc = vlib.corpus("nc")
     _, cust = vlib.corpus("cust")
-    rnd = gen_random(tier, seed, "overlap", "c16", 100, 1000)
+    rnd = gen_random(tier, seed, "overlap", "c16", 100, 1000, custom=True)
     decls = copyd(star) + copyd(arr) + copyd(nc) + copyd(rnd) + copyd(cust)[:: q(tier, 3, 1)]
     if tier == "thorough":
         decls += tall_chunks(lambda d, f: f["ranges"][0][1] >= d["n"] - 2 or f["ranges"][0][0] <= 1 or rustgen.width(f) in (1, 7, 8, 9, 31, 32, 33, 63, 64, 65))
@@ -752,7 +756,7 @@ def c19(pid, tier, seed, t0):
     mc = [mc_register("C19", "SmallDecls", ["a", "b"], ["TypeOK"], ["DeclConstant"])]
     _, dbg = vlib.corpus("dbg")
     rnd = []
-    for d in gen_random(tier, seed, "overlap", "c19", 80, 800):
+    for d in gen_random(tier, seed, "overlap", "c19", 80, 800, custom=True):
         fs = [f for f in d["fields"] if not f["array"]]
         if fs:
             d = dict(d, fields=[dict(f, access="r" if f["access"] == "w" else f["access"]) for f in fs], debug=True)
